@@ -284,6 +284,33 @@ def check_class(ctx, cls):
         for (s, a, b, desc) in atoms:
             box[s] = iv.mpf([float(a), float(b)])
         perturb = sp.Symbol("perturb", real=True)
+        # f is defined on the whole (closed) documented domain: a path that raises must be infeasible inside the box.  Its
+        # condition is evaluated exactly at the corners, edge midpoints and centre of the box - one satisfying point is a witness
+        for pth in [pp for pp in paths if pp.expr is None]:
+            pts = sample_points(xs, lo_s, hi_s)
+            wit = None
+            undecided = False
+            for pt in pts:
+                vals = []
+                for cnd, pol in pth.conds:
+                    if isinstance(cnd, bool):
+                        vals.append(cnd == pol)
+                        continue
+                    try:
+                        v = cnd.subs(pt)
+                        v = bool(v) if v in (sp.true, sp.false) else None
+                    except Exception:
+                        v = None
+                    vals.append(None if v is None else (v == pol))
+                if all(v is True for v in vals):
+                    wit = pt
+                    break
+                if any(v is None for v in vals) and not any(v is False for v in vals):
+                    undecided = True
+            ctx.ob("R17-FINITE", wit is None and not undecided, cls.file, qual, "f is defined on the whole documented domain (d=%d): %s" % (d, pth.raises),
+                   "the raising path is infeasible at every corner / edge midpoint / centre of the box" if wit is None and not undecided else
+                   ("f raises %s at the domain point %s" % (pth.raises, {str(k): str(v) for k, v in wit.items()}) if wit is not None else
+                    "whether the raising path can be taken inside the domain cannot be decided (condition not evaluable)"), f.lineno)
         rets = [pth for pth in paths if pth.expr is not None]
         ctx.ob("R17-BOUND", bool(rets), cls.file, qual, "f has a returning path (d=%d)" % d, "%d path(s)" % len(paths), f.lineno,
                nontrivial=False)
@@ -358,6 +385,16 @@ def check_class(ctx, cls):
         ctx.ob("R17-ATTAIN", ok, cls.file, qual, "fmax attained at the documented maximiser %s (d=%d, tolerance %g)" % (
             [str(v) for v in pt], d, tol),
             "f - fmax at the maximiser in %s" % (best[2],) if best else "no feasible path at the maximiser", f.lineno)
+
+
+def sample_points(xs, lo, hi):
+    """corners, edge midpoints and centre of the box [lo, hi]^d as substitution dicts (exact values)"""
+    import itertools
+    mid = (lo + hi) / 2
+    out = []
+    for combo in itertools.product((lo, mid, hi), repeat=len(xs)):
+        out.append(dict(zip(xs, combo)))
+    return out[:243]
 
 
 def finite_atoms(g, box):
